@@ -70,7 +70,7 @@ CHECKS['C03'] = {
     'unproved': ['evaluate arms FunctionCall (all functions), TypeConversion, Aggregate', 'parser_tree_converter lowering, projection naming'],
 }
 CHECKS['C09'] = {
-    'verus_units': ['eval', 'follow'],
+    'verus_units': ['eval', 'follow', 'select', 'engine', 'extract'],
     'only_safety': True,
     'clause_prefixes': ['c09'],
     'technique': 'contract-based deductive verification (Verus): absence of arithmetic overflow, division by zero, failed callee preconditions (unwrap, indexing, unreachable!) in every extracted function',
@@ -106,7 +106,7 @@ CHECKS['C07'] = {
     'unproved': ['join branches (execute_join closures)', 'FollowFileExecutor::execute loop'],
 }
 CHECKS['C06'] = {
-    'verus_units': ['engine'],
+    'verus_units': ['engine', 'extract'],
     'clause_prefixes': ['c06'],
     'technique': 'contract-based deductive verification (Verus): frame postconditions on ExecutionEngine::execute_select / execute_aggregate / execute_aggregate_update extracted from /repo',
     'claim': 'Proof that for a line whose extracted row has no non-NULL column (which includes every NOT NULL failure, see C01) the three per-line entry points return an empty output and leave the whole engine (DISTINCT memory, aggregation state, row counter) unchanged, for all tables, statements and lines. Consequently inserting or deleting such lines cannot change any later result of that engine.',
@@ -126,6 +126,29 @@ CHECKS['C11'] = {
     'explanation': 'Thin, deliberately: the claim is about the dispatch in ExecutionEngine::execute and AggregateExecutionEngine::execute.',
     'trusted': COMMON_TRUST + ['AggregateExecutionEngine::execute_update / execute_result as an abstract state machine (agg_step, agg_table)'],
     'unproved': ['AggregateExecutionEngine::execute_result purity', 'FollowFileExecutor::execute'],
+}
+
+CHECKS['C01'] = {
+    'verus_units': ['extract'],
+    'clause_prefixes': ['c01'],
+    'technique': 'contract-based deductive verification (Verus): ColumnParsing::extract_using_regex, the Regex / MultiRegex-array / MultiRegex-timestamp arms of ColumnParsing::extract, ColumnDefinition::default_value and TableDefinition::extract extracted from /repo against a specification of "the referenced group of the referenced pattern, typed"',
+    'claim': 'Proof for all column definitions, match results and lines that each regex/split column holds exactly sem_ref(type, line, reference, default): the text of the referenced group of the referenced pattern converted by the declared type (BOOLEAN = presence, NULL when not a literal, DEFAULT/NULL when pattern or group did not take part), arrays position by position, TIMESTAMP columns built from exactly the integer groups as mathematical integers (an out-of-range part gives the default, never a wrapped value), TRIM on TEXT only, and that the row is all columns in definition order or empty at the first NULL NOT NULL column.',
+    'note': 'Trusted: the regex crate (leftmost match, group text, split) behind the VCaptures / VRegexResults stand-ins, ParsingInput::new (not extracted), ValueType::parse as an uninterpreted function, chrono civil-time construction (sem_civil), str::trim. Unproved: the month-name branch of the timestamp arm (stubbed), CREATE TABLE syntax -> definition mapping (parser).',
+    'level': 'proof',
+    'explanation': 'sem_column / sem_row are written from the property statement over an abstract match result; the extracted code is proved equal to them, loop invariants spliced by ordinal.',
+    'trusted': COMMON_TRUST + ['regex crate semantics behind stand-ins', 'ValueType::parse, str::trim, chrono NaiveDate/NaiveTime construction as uninterpreted functions'],
+    'unproved': ['ParsingInput::new', 'timestamp month-name branch', 'parse_create_table / parser_tree_converter (definition syntax)'],
+}
+CHECKS['C02'] = {
+    'verus_units': ['extract'],
+    'clause_prefixes': ['c02'],
+    'technique': 'contract-based deductive verification (Verus): JsonAccess::get_value (recursive, with decreases), the Json arm of ColumnParsing::extract and the scalar arms of ValueType::convert_from_json extracted from /repo against json_walk / sem_from_json',
+    'claim': 'Proof for all paths and JSON trees that get_value returns exactly the value addressed by following fields and array indexes (None as soon as a step is absent), and that a JSON column is that value converted without coercion (INT only from as_i64, REAL from as_f64, TEXT only from strings, BOOLEAN only from booleans, CONVERT = parse of a JSON string as the declared type, wrong type = NULL, absent path = DEFAULT/NULL). Termination of the path walk is proved.',
+    'note': 'Trusted: serde_json parsing and accessors behind the VJson stand-in (as_i64 only for integers within 64 bits etc. is serde_json documentation). Unproved: element-wise array conversion (iterator chain, stubbed arm), JsonAccess::from_linear (into_iter().rev()), ParsingInput::new (invalid JSON => JSON null).',
+    'level': 'proof',
+    'explanation': 'json_walk is the recursive specification of the path; the extracted get_value is proved equal to it with decreases self.',
+    'trusted': COMMON_TRUST + ['serde_json::Value accessors as specified stand-ins'],
+    'unproved': ['ValueType::convert_from_json Array arm', 'JsonAccess::from_linear', 'serde_json::from_str'],
 }
 
 NOT_APPLICABLE = {
